@@ -82,3 +82,9 @@ C("C15",
   "Trusted: direct polynomial evaluation with the library field operations; only well-formed schedules are generated.",
   "acceptance monitor over generated honest instances + reference-model comparison of the folding step",
   "DESIGN.md §5 C15")
+
+C("C01",
+  "A parametric computation family (1..255 columns, per-column rules next = a*cur^d + b*other (+ periodic) and next = cur*periodic (+ other) with d in 1..blowup+1, periodic columns of independent cycle lengths, 1..n/2+1 exemptions with arbitrary values in the exempt tail, single/periodic/sequence assertions incl. >= 64 values and non-zero first steps, auxiliary segments with 0..3 random elements, Lagrange-kernel column with a GKR stub, degenerate traces) is proven and verified under all 12 field x hasher combinations, three extension degrees and admissible options incl. the boundaries (1/254/255 queries, blowup 2/128, grinding 16, folding 16, remainder degree 0/255). An independent reference validity predicate decides that the trace is valid; then prove must succeed, verify must accept directly and after the Proof byte round trip (three readers), the decoded proof must equal the original, and the security policy must behave end to end. ~2e4 proofs per quick run.",
+  "Trusted: the reference validity predicate and trace generator of the harness; release build with overflow checks (debug-only validation inside the prover is not exercised). Coin exhaustion (FailedToDrawFieldElement) is outside the claim and counted.",
+  "reference-predicate-driven acceptance monitor over boundary-first + random instance generation",
+  "DESIGN.md §5 C01")
